@@ -41,7 +41,7 @@ Definition exn_eqb (a b : exn) : bool :=
   | _, _ => false
   end.
 
-Open Scope string_scope.
+Local Open Scope string_scope.
 
 Definition show_exn (e : exn) : string :=
   match e with
